@@ -833,6 +833,95 @@ impl Operator<i64> for SPunit {
     }
 }
 
+/// an error type without any payload (zero-sized, but very much inhabited)
+#[derive(Debug, Clone, Copy, PartialEq, Eq)]
+pub struct SZ;
+impl std::fmt::Display for SZ {
+    fn fmt(&self, f: &mut std::fmt::Formatter<'_>) -> std::fmt::Result {
+        write!(f, "static unit probe failed")
+    }
+}
+impl StdError for SZ {}
+impl miette::Diagnostic for SZ {}
+
+/// a probe whose error type is the zero-sized `SZ`; draws one word per call
+pub struct SPz {
+    fail_on_call: Option<u32>,
+    calls: std::rc::Rc<std::cell::Cell<u32>>,
+}
+impl Composable for SPz {}
+impl Operator<i64> for SPz {
+    type Output = i64;
+    type Error = SZ;
+    fn apply<R: Rng + ?Sized>(&self, x: i64, rng: &mut R) -> Result<i64, SZ> {
+        let n = self.calls.get();
+        self.calls.set(n + 1);
+        let _ = rng.next_u32();
+        if self.fail_on_call == Some(n) { Err(SZ) } else { Ok(x + 1) }
+    }
+}
+/// three copies, with the zero-sized error type
+pub struct SVz;
+impl Composable for SVz {}
+impl Operator<i64> for SVz {
+    type Output = Vec<i64>;
+    type Error = SZ;
+    fn apply<R: Rng + ?Sized>(&self, x: i64, _: &mut R) -> Result<Vec<i64>, SZ> {
+        Ok(vec![x, x + 1, x + 2])
+    }
+}
+
+/// Compositions over operators whose error type is zero-sized: a failure is still a failure - the
+/// pipeline stops there (calls and words drawn), reports an error that leads to the probe's, and does not panic.
+fn unit_error_case(kind: u8, failing: u8, call: u32) -> Result<bool, Fail> {
+    let mut rng = Counting::new(1);
+    let calls = std::rc::Rc::new(std::cell::Cell::new(0u32));
+    let fail_on_call = if failing == 1 { Some(call) } else { None };
+    let mk = || SPz { fail_on_call, calls: calls.clone() };
+    // (what, outcome as the chain of messages or the number of results, calls the complete pipeline makes)
+    let (what, outcome, full): (&str, Result<usize, Vec<String>>, u32) = match kind {
+        10 => ("p.apply_twice()", mk().apply_twice().apply(5, &mut rng).map(|v| v.len()).map_err(|e| std_chain(&e)), 2),
+        11 => ("p.apply_n_times::<3>()", mk().apply_n_times::<3>().apply(5, &mut rng).map(|v| v.len()).map_err(|e| std_chain(&e)), 3),
+        12 => ("p.then(p)", mk().then(mk()).apply(5, &mut rng).map(|_| 1).map_err(|e| std_chain(&e)), 2),
+        13 => ("p.and(p)", mk().and(mk()).apply(5, &mut rng).map(|_| 2).map_err(|e| std_chain(&e)), 2),
+        14 => ("make_vec.then_map(p)", SVz.then_map(mk()).apply(5, &mut rng).map(|v| v.len()).map_err(|e| std_chain(&e)), 3),
+        _ => {
+            // the library's own zero-sized error: selecting twice from an empty population
+            let nobody: Vec<EcIndividual<u8, Score<i64>>> = if failing == 1 { vec![] } else { vec![EcIndividual::new(1, Score(1))] };
+            let r = Select::new(ec_core::operator::selector::best::Best).apply_twice().apply(&nobody, &mut rng);
+            return match r {
+                Ok(_) => {
+                    ensure!(failing != 1, "compose/ran-after-failure", "selecting twice from an empty population succeeded");
+                    Ok(false)
+                }
+                Err(e) => {
+                    ensure!(failing == 1, "compose/spurious-error", "selecting twice from one individual failed: {e}");
+                    Ok(true)
+                }
+            };
+        }
+    };
+    let words = rng.fingerprint().words;
+    match outcome {
+        Err(chain) => {
+            ensure!(fail_on_call.is_some_and(|c| c < full), "compose/spurious-error", "{what} with nothing failing reported {chain:?}");
+            ensure!(chain.last().map(String::as_str) == Some("static unit probe failed"), "compose/error-path", "{what}: the source() chain {chain:?} does not lead to the failing probe's error");
+            ensure!(
+                calls.get() == call + 1 && words == u64::from(call) + 1,
+                "compose/ran-after-failure",
+                "{what} failing at call {call}: {} calls were made and {words} words drawn",
+                calls.get()
+            );
+            Ok(true)
+        }
+        Ok(n) => {
+            ensure!(!fail_on_call.is_some_and(|c| c < full), "compose/failure-swallowed", "{what}: the probe failed at call {call} but the pipeline returned {n} results");
+            ensure!(calls.get() == full && words == u64::from(full), "compose/value", "{what}: {} calls and {words} words for a complete run", calls.get());
+            Ok(false)
+        }
+    }
+}
+
 fn std_chain(e: &(dyn StdError + 'static)) -> Vec<String> {
     let mut out = vec![e.to_string()];
     let mut cur = e.source();
@@ -874,6 +963,9 @@ fn judge_chains<E: StdError + miette::Diagnostic + 'static>(what: &str, e: &E, d
 }
 
 fn static_chain_case(kind: u8, failing: u8, call: u32) -> Result<bool, Fail> {
+    if kind >= 10 {
+        return unit_error_case(kind, failing, call);
+    }
     let mut rng = Counting::new(1);
     let f = |id: u8| if id == failing { Some(call) } else { None };
     match kind {
@@ -975,7 +1067,7 @@ fn static_chain_case(kind: u8, failing: u8, call: u32) -> Result<bool, Fail> {
 
 fn static_error_chains(ctx: &mut Ctx) {
     let mut cases = vec![];
-    for kind in 0u8..10 {
+    for kind in 0u8..16 {
         for failing in 0u8..4 {
             for call in 0u32..3 {
                 cases.push((kind, failing, call));
@@ -996,7 +1088,7 @@ fn static_error_chains(ctx: &mut Ctx) {
 }
 
 pub fn run(ctx: &mut Ctx) {
-    ctx.rule = "compositions: generated spec trees (depth <= 6) over then / and / map (array, tuple, Vec) / apply_n_times<0..3> / apply_twice().then_map / Identity / Constant around probe operators that log (call order, input seen, words drawn) and fail at a scripted call; every combinator node is the crate's real type (children boxed as the crate's Box<dyn DynOperator>), compared with a reference interpreter of the spec: same calls in the same order with the same inputs, same words at the same stream offsets, nothing after the first failure, final generator state, value, and the failing part recovered from the error value. static error chains: statically typed then / and / then_map (array, tuple, Vec) compositions of probes with an error type that is both std Error and miette Diagnostic - the source() and diagnostic_source() walks show the same levels down to the failing probe and name the failing element. wrappers: Select / Mutate / Recombine (by value and by reference), GenomeExtractor, Identity, Constant and the usual select-twice -> extract -> recombine -> mutate -> score pipeline against the stages run by hand from an equal generator state. non-trivial = depth >= 2 and (a scripted failure or >= 2 random-drawing probes); distinct by JSON encoding".into();
+    ctx.rule = "compositions: generated spec trees (depth <= 6) over then / and / map (array, tuple, Vec) / apply_n_times<0..3> / apply_twice().then_map / Identity / Constant around probe operators that log (call order, input seen, words drawn) and fail at a scripted call; every combinator node is the crate's real type (children boxed as the crate's Box<dyn DynOperator>), compared with a reference interpreter of the spec: same calls in the same order with the same inputs, same words at the same stream offsets, nothing after the first failure, final generator state, value, and the failing part recovered from the error value. static error chains: statically typed then / and / then_map (array, tuple, Vec) compositions of probes with an error type that is both std Error and miette Diagnostic - the source() and diagnostic_source() walks show the same levels down to the failing probe and name the failing element; the same combinators over probes whose error type is zero-sized (and the library's own EmptyPopulation under apply_twice): a failure stops the pipeline and comes back as an error. wrappers: Select / Mutate / Recombine (by value and by reference), GenomeExtractor, Identity, Constant and the usual select-twice -> extract -> recombine -> mutate -> score pipeline against the stages run by hand from an equal generator state. non-trivial = depth >= 2 and (a scripted failure or >= 2 random-drawing probes); distinct by JSON encoding".into();
     ctx.assumptions.push("the failing part is read from the error's Debug/Display text (the error types' fields are private); if that text cannot be parsed the path is reported as unobservable, not as a violation".into());
     let (n, nw) = ctx.tier.pick((300_000u32, 100_000u32), (6_000_000, 1_000_000));
     ctx.run_prop("compositions", n, strategy, oracle);
